@@ -150,7 +150,9 @@ def build_miri_worker():
     try:
         runner._sync_lock()
         env = dict(runner.ENV_BASE)
-        env["MIRIFLAGS"] = "-Zmiri-disable-isolation -Zmiri-tree-borrows"
+        # deterministic floats: by default Miri perturbs the results of sin / exp / pow ... by a few ulp on purpose, which
+        # the same-outcome oracle would report as a difference from the native build
+        env["MIRIFLAGS"] = "-Zmiri-disable-isolation -Zmiri-tree-borrows -Zmiri-deterministic-floats"
         cmd = ["cargo", "+nightly", "miri", "run", "--offline", "--quiet", "--target-dir", os.path.join(runner.BUILD, "miri-worker"),
                "--bin", "jv-worker"]
         p = subprocess.run(cmd, input=b'{"op":"eval","code":"1+1"}\n', capture_output=True, env=env, cwd=runner.HARNESS, timeout=3000)
